@@ -460,6 +460,10 @@ def finish(ctx, prop, proof):
             notes=ctx.notes, **ctx.extra),
         assumptions=prop.get("assumptions", []),
         wall_s=round(wall, 2), violations=nviol)
+    if discharged == 0:
+        # nothing was proved in this run (broken build or proof): do not claim proof-level counts
+        ev["coverage"].pop("discharged", None)
+        ev["coverage"]["obligations_not_discharged"] = ev["coverage"].pop("obligations", 0)
     os.makedirs(os.path.join(ROOT, "evidence"), exist_ok=True)
     json.dump(ev, open(os.path.join(ROOT, "evidence", pid + ".json"), "w"), indent=1)
     log("[%s] %s tier=%s wall=%.1fs evaluations=%d theorems=%d/%d" % (
